@@ -592,6 +592,41 @@ def rule_u8(ctx, methods):
               "a non-default constant must be declared with `const name: type;`", "declared")
 
 
+
+def rule_u18(ctx):
+    """Indexed regex operators are printed with exactly the parameters of the declaration: `(_ re.loop n)` (n or more) and `(_ re.loop n m)` are different
+    operators, so the printed parameter list must be f.params() itself - not a slice, repetition or padding of it."""
+    f = ctx.repo.func(Z3H, "smt_expr_to_str", "C07.U18")
+    c = f"{Z3H}:smt_expr_to_str"
+    fstrs = [n for n in ast.walk(f) if isinstance(n, ast.JoinedStr) and any(isinstance(v, ast.Constant) and "re.loop" in str(v.value) for v in n.values)]
+    if len(fstrs) != 1:
+        raise Unrecognised("C07.U18", c, "printer of the indexed operator `(_ re.loop ...)` not found")
+    js = fstrs[0]
+    holes = [v.value for v in js.values if isinstance(v, ast.FormattedValue)]
+    whole = [h for h in holes if isinstance(h, ast.Call) and isinstance(h.func, ast.Attribute) and h.func.attr == "join" and len(h.args) == 1
+             and src(h.args[0]).replace(" ", "") in ("map(str,f.params())", "[str(p)forpinf.params()]", "(str(p)forpinf.params())", "str(p)forpinf.params()")]
+    if len(holes) == 1 and whole:
+        ctx.ok("U18-indexed-op-params", c, "re.loop printed with all parameters of the declaration", site(js))
+        return
+    from ..core import _binding_sources
+
+    binds = _binding_sources(f)
+    derived = []
+    for h in holes:
+        for n in ast.walk(h):
+            if isinstance(n, ast.Name):
+                for b in binds.get(n.id, []):
+                    if "params()" in src(b) and any(isinstance(x, (ast.Subscript, ast.BinOp)) for x in ast.walk(b)):
+                        derived.append(src(b))
+            if isinstance(n, ast.Subscript) and "params()" in src(n.value):
+                derived.append(src(n))
+    if not derived:
+        raise Unrecognised("C07.U18", c, f"parameter list of the printed re.loop `{src(js)[:60]}` not understood")
+    ctx.viol("U18-indexed-op-params", c, "re.loop printed with all parameters of the declaration", site(js),
+             f"the printed parameters of `(_ re.loop ...)` are taken from `{derived[0][:60]}` (a fixed number of positions) instead of the declaration's own parameter list: "
+             "the one-parameter form `(_ re.loop n)` (n or more repetitions) is printed as another operator (e.g. `(_ re.loop n n)`, exactly n), so the unparsed constraint parses back to a different one")
+
+
 def run(ctx) -> str:
     box = {}
     ctx.guarded("U1", lambda: box.setdefault("m", rule_u1(ctx)))
@@ -611,6 +646,7 @@ def run(ctx) -> str:
     ctx.guarded("U11", lambda: rule_u11(ctx))
     ctx.guarded("U12", lambda: rule_u12(ctx))
     ctx.guarded("U16", lambda: rule_u16(ctx))
+    ctx.guarded("U18", lambda: rule_u18(ctx))
     from . import c08 as _c08
 
     ctx.guarded("U17", lambda: _c08.rule_d11(ctx))
